@@ -148,7 +148,7 @@ class HeartbeatManager(Generic[comms.Hdr]):
         # Run until cancelled.
         while True:
             try:
-                async with asyncio.timeout(None) as timeout:
+                async with asyncio.timeout(self._config.timeout) as timeout:
                     while True:
                         await self._response_received.wait()
                         timeout.reschedule(self._loop.time() + self._config.timeout)
